@@ -54,6 +54,7 @@ type HarnessRun struct {
 	PathsEnded  map[string]int
 	Obligations int
 	Discharged  int
+	Trivial     int
 	Unknown     int
 	UnknownIDs  map[string]int
 	Violations  map[string]*Violation // by Kind+ID
@@ -150,6 +151,10 @@ type Worker struct {
 	smallExpBits int
 	bigStripMax  int
 	b64prov  map[*Term]*Term
+	model    *Model
+	facts    map[int]bool
+	eqc      map[int]*Term
+	rwMemo   map[int]*Term
 }
 
 type specAbort struct{ why string }
@@ -291,6 +296,10 @@ func (w *Worker) runJob(j Job) {
 	w.smallExpBits = 0
 	w.bigStripMax = -1
 	w.b64prov = nil
+	w.model = newModel(map[string]*big.Int{})
+	w.facts = map[int]bool{}
+	w.eqc = map[int]*Term{}
+	w.rwMemo = map[int]*Term{}
 
 	q0, t0 := w.solver.Queries, w.solver.Time
 	w.solver.PopTo(0)
@@ -417,9 +426,48 @@ func (w *Worker) assertPC(t *Term) {
 	}
 	w.pcTerms = append(w.pcTerms, t)
 	w.solver.Assert(t)
+	w.learn(t)
+	if len(w.rwMemo) > 0 && t.Op != OpEq {
+		// new facts may enable more rewriting
+		w.rwMemo = map[int]*Term{}
+	}
+	if w.model != nil {
+		if v := w.eval(t, w.model); v == nil || !v.IsTrue() {
+			w.model = nil
+		}
+	}
+}
+
+// checkM is check with model extraction; a sat model is returned as *Model.
+func (w *Worker) checkM(extra *Term) (SatResult, *Model) {
+	w.qstat("branch")
+	r, m := w.solver.Check(extra, w.tc.vars)
+	if r == Sat && m != nil {
+		return r, newModel(m)
+	}
+	return r, nil
+}
+
+var qstatOn = os.Getenv("VCHECK_QSTATS") != ""
+var qstatMu sync.Mutex
+var qstats = map[string]int{}
+
+func (w *Worker) qstat(kind string) {
+	if !qstatOn {
+		return
+	}
+	f := w.top()
+	k := kind + " ?"
+	if f != nil && f.cur != nil {
+		k = kind + " " + f.fn.String() + " " + w.eng.prog.Fset.Position(f.cur.Pos()).String()
+	}
+	qstatMu.Lock()
+	qstats[k]++
+	qstatMu.Unlock()
 }
 
 func (w *Worker) check(extra *Term, model bool) (SatResult, map[string]*big.Int) {
+	w.qstat("oblig")
 	var vars []*Term
 	if model {
 		vars = w.tc.vars
@@ -450,6 +498,7 @@ func (w *Worker) fork(alt Decision) {
 
 // decideBool resolves a symbolic branch condition.
 func (w *Worker) decideBool(cond *Term) bool {
+	cond = w.simp(cond)
 	if cond.IsTrue() {
 		return true
 	}
@@ -471,22 +520,61 @@ func (w *Worker) decideBool(cond *Term) bool {
 			} else {
 				w.assertPC(w.tc.Not(cond))
 			}
+		} else if v {
+			w.learn(cond)
+		} else {
+			w.learn(w.tc.Not(cond))
 		}
 		return v
 	}
-	rt, _ := w.check(cond, false)
+	var known *Term
+	if w.model != nil {
+		known = w.eval(cond, w.model)
+	}
+	if known != nil && known.IsTrue() {
+		rf, _ := w.checkM(w.tc.Not(cond))
+		if rf == Unsat {
+			w.trace = append(w.trace, Decision{K: 'b', V: 1, F: true})
+			w.learn(cond)
+			return true
+		}
+		w.fork(Decision{K: 'b', V: 0})
+		w.trace = append(w.trace, Decision{K: 'b', V: 1})
+		w.assertPC(cond)
+		return true
+	}
+	if known != nil && known.IsFalse() {
+		rt, mt := w.checkM(cond)
+		if rt == Unsat {
+			w.trace = append(w.trace, Decision{K: 'b', V: 0, F: true})
+			w.learn(w.tc.Not(cond))
+			return false
+		}
+		w.fork(Decision{K: 'b', V: 0})
+		w.trace = append(w.trace, Decision{K: 'b', V: 1})
+		w.model = mt
+		w.assertPC(cond)
+		return true
+	}
+	rt, mt := w.checkM(cond)
 	if rt == Unsat {
 		w.trace = append(w.trace, Decision{K: 'b', V: 0, F: true})
+		w.learn(w.tc.Not(cond))
 		return false
 	}
-	rf, _ := w.check(w.tc.Not(cond), false)
+	rf, _ := w.checkM(w.tc.Not(cond))
 	if rf == Unsat {
 		w.trace = append(w.trace, Decision{K: 'b', V: 1, F: true})
+		w.learn(cond)
+		if w.model == nil {
+			w.model = mt
+		}
 		return true
 	}
 	// both sides possible (or unknown): take true here, queue false
 	w.fork(Decision{K: 'b', V: 0})
 	w.trace = append(w.trace, Decision{K: 'b', V: 1})
+	w.model = mt
 	w.assertPC(cond)
 	return true
 }
@@ -515,33 +603,28 @@ func (w *Worker) choose(n int) int {
 
 // concretize enumerates the feasible values of t (one per path).
 func (w *Worker) concretize(t *Term, why string) uint64 {
+	t = w.simp(t)
 	if t.IsConst() {
 		return t.U64Sat()
 	}
 	if w.noFork > 0 {
 		panic(specAbort{"concretize"})
 	}
-	var excl []uint64
 	if d, ok := w.nextReplay(); ok {
 		if d.K != 'v' {
 			panic("replay mismatch: expected concretize, got " + string(d.K))
 		}
-		if d.Excl == nil {
-			w.trace = append(w.trace, d)
+		w.trace = append(w.trace, d)
+		if !d.F {
 			w.assertPC(w.tc.Eq(t, w.tc.Const(t.W, d.V)))
-			return d.V
+		} else {
+			w.learn(w.tc.Eq(t, w.tc.Const(t.W, d.V)))
 		}
-		excl = d.Excl
+		return d.V
 	}
-	// find a fresh value different from excl
-	var conj []*Term
-	for _, x := range excl {
-		conj = append(conj, w.tc.Not(w.tc.Eq(t, w.tc.Const(t.W, x))))
-	}
-	c := w.tc.And(conj...)
+	// enumerate all feasible values now
 	tmp := w.tc.Var("$conc", t.W)
 	defer func() {
-		// remove tmp from the variable list
 		vs := w.tc.vars
 		for i, v := range vs {
 			if v == tmp {
@@ -550,35 +633,56 @@ func (w *Worker) concretize(t *Term, why string) uint64 {
 			}
 		}
 	}()
-	r, m := w.solver.Check(w.tc.And(c, w.tc.Eq(tmp, t)), []*Term{tmp})
-	if r == Unsat {
+	var vals []uint64
+	var conj []*Term
+	if w.model != nil {
+		if v := w.eval(t, w.model); v != nil {
+			vals = append(vals, v.U64Sat())
+			conj = append(conj, w.tc.Not(w.tc.Eq(t, w.tc.Const(t.W, v.U64Sat()))))
+		}
+	}
+	for {
+		w.qstat("conc")
+		r, m := w.solver.Check(w.tc.And(w.tc.And(conj...), w.tc.Eq(tmp, t)), []*Term{tmp})
+		if r == Unsat {
+			break
+		}
+		if r == Unknown {
+			w.recordUnknown("concretize:" + why)
+			break
+		}
+		bv, ok := m["$conc"]
+		if !ok {
+			w.recordUnknown("concretize-model:" + why)
+			break
+		}
+		v := bv.Uint64()
+		vals = append(vals, v)
+		conj = append(conj, w.tc.Not(w.tc.Eq(t, w.tc.Const(t.W, v))))
+		if len(vals) > 4096 {
+			w.report(&Violation{Kind: "unwind", ID: "concretize:" + why, Msg: "more than 4096 values for a concretised term"})
+			break
+		}
+	}
+	if len(vals) == 0 {
 		w.endPath("conc-exhausted")
 	}
-	if r == Unknown {
-		w.recordUnknown("concretize:" + why)
-		w.endPath("unknown")
+	forced := len(vals) == 1
+	for i := len(vals) - 1; i >= 1; i-- {
+		w.fork(Decision{K: 'v', V: vals[i]})
 	}
-	bv, ok := m["$conc"]
-	if !ok {
-		w.recordUnknown("concretize-model:" + why)
-		w.endPath("unknown")
-	}
-	v := bv.Uint64()
-	if len(excl) >= 4096 {
-		w.report(&Violation{Kind: "unwind", ID: "concretize:" + why, Msg: "more than 4096 values for a concretised term"})
+	w.trace = append(w.trace, Decision{K: 'v', V: vals[0], F: forced})
+	if !forced {
+		w.assertPC(w.tc.Eq(t, w.tc.Const(t.W, vals[0])))
 	} else {
-		ex := make([]uint64, len(excl)+1)
-		copy(ex, excl)
-		ex[len(excl)] = v
-		w.fork(Decision{K: 'v', Excl: ex})
+		w.learn(w.tc.Eq(t, w.tc.Const(t.W, vals[0])))
 	}
-	w.trace = append(w.trace, Decision{K: 'v', V: v})
-	w.assertPC(w.tc.Eq(t, w.tc.Const(t.W, v)))
-	return v
+	return vals[0]
 }
 
 // assume constrains the path; ends it if infeasible.
 func (w *Worker) assume(cond *Term) {
+	cond = w.simp(cond)
 	if cond.IsTrue() {
 		return
 	}
@@ -596,11 +700,19 @@ func (w *Worker) assume(cond *Term) {
 		w.assertPC(cond)
 		return
 	}
-	r, _ := w.check(cond, false)
+	if w.model != nil {
+		if v := w.eval(cond, w.model); v != nil && v.IsTrue() {
+			w.trace = append(w.trace, Decision{K: 'a', V: 1})
+			w.assertPC(cond)
+			return
+		}
+	}
+	r, m := w.checkM(cond)
 	if r == Unsat {
 		w.endPath("assume-infeasible")
 	}
 	w.trace = append(w.trace, Decision{K: 'a', V: 1})
+	w.model = m
 	w.assertPC(cond)
 }
 
@@ -614,10 +726,20 @@ func (w *Worker) recordUnknown(id string) {
 // obligation checks that ok holds on every continuation of this path.
 // Returns normally when the ok side is feasible (and asserts it).
 func (w *Worker) obligation(kind, id string, ok *Term, msg string) {
+	orig := ok
+	ok = w.simp(ok)
 	if ok.IsTrue() {
-		if kind == "assert" {
+		if kind == "assert" || !orig.IsConst() {
 			w.h.mu.Lock()
-			w.h.Asserted[id]++
+			if kind == "assert" {
+				w.h.Asserted[id]++
+			}
+			if w.pos >= len(w.prefix) {
+				// discharged by constant folding / path facts (no solver call needed)
+				w.h.Obligations++
+				w.h.Discharged++
+				w.h.Trivial++
+			}
 			w.h.mu.Unlock()
 		}
 		return
@@ -635,6 +757,8 @@ func (w *Worker) obligation(kind, id string, ok *Term, msg string) {
 		}
 		if !d.F {
 			w.assertPC(ok)
+		} else {
+			w.learn(ok)
 		}
 		return
 	}
@@ -657,6 +781,7 @@ func (w *Worker) obligation(kind, id string, ok *Term, msg string) {
 		w.h.Discharged++
 		w.h.mu.Unlock()
 		w.trace = append(w.trace, Decision{K: 'o', V: 1, F: true})
+		w.learn(ok)
 		return
 	case Unknown:
 		w.recordUnknown(kind + ":" + id)
